@@ -221,8 +221,10 @@ def to_py_cmds(cmds):
     return out
 
 
-def run_real(db, cmds, strategy="zeno", steps=False):
-    """Recommendations(db).run_pipeline(cmds) on the real code -> canonical dict."""
+def run_real(db, cmds, strategy="zeno", steps=False, split=False):
+    """Recommendations(db).run_pipeline(cmds) on the real code -> canonical dict. With `split`, the commands are given
+    one `run_pipeline` call at a time to the SAME recommender (successive commands are successive commands, however
+    they are handed over; seeded change C06-e)."""
     from paroxython.recommend_programs import Recommendations
 
     def once(cs):
@@ -230,7 +232,13 @@ def run_real(db, cmds, strategy="zeno", steps=False):
         with contextlib.redirect_stdout(io.StringIO()), contextlib.redirect_stderr(io.StringIO()):
             try:
                 rec = Recommendations(d, assessment_strategy=strategy)
-                rec.run_pipeline(to_py_cmds(cs))
+                if split:
+                    for c in cs:
+                        rec.run_pipeline(to_py_cmds([c]))
+                    if not cs:
+                        rec.run_pipeline([])
+                else:
+                    rec.run_pipeline(to_py_cmds(cs))
             except Exception as exc:  # noqa
                 return {"exc": type(exc).__name__}, None
         st = {
